@@ -185,7 +185,7 @@ pub unsafe trait Pe<'a>: PeObject<'a> + Copy {
 			let size_of_image = self.optional_header().SizeOfImage;
 
 			if rva < size_of_image {
-				Ok(image_base + rva as Va)
+				image_base.checked_add(rva as Va).ok_or(Error::Overflow)
 			}
 			else {
 				Err(Error::Bounds)
